@@ -2,7 +2,7 @@
 //!
 //! Input, one case per line: `<mode> <arg> <arg> ...` where `<arg>` is `-` (empty list) or
 //! comma-separated decimal numbers.  Output: one line per case in the same syntax.  Every case
-//! runs under `catch_unwind`; a panic is the observation `888888`.
+//! runs under `catch_unwind`; a panic is the observation `18446744073710440504`.
 use std::io::{self, BufRead, Write};
 use std::panic::{catch_unwind, AssertUnwindSafe};
 
@@ -18,7 +18,7 @@ mod sync;
 pub type Arg = Vec<u128>;
 pub type Args = Vec<Arg>;
 
-pub const PANIC: u128 = 888_888;
+pub const PANIC: u128 = 18_446_744_073_710_440_504; // 2^64 + 888888: outside every data domain of the observations
 
 pub fn bytes(a: &Arg) -> Vec<u8> {
     a.iter().map(|&x| x as u8).collect()
